@@ -68,8 +68,11 @@ func resetHooks() {
 
 var evEpoch = time.Date(2024, 2, 29, 12, 0, 0, 0, time.UTC)
 
+// evTime is the (hook) timestamp of an event. Events of different tasks and
+// consecutive events of one task deliberately share wall-clock seconds, as
+// they do under load: per-second caches only go wrong on a hit.
 func evTime(k evKey) time.Time {
-	return evEpoch.Add(time.Duration(k.task)*time.Hour + time.Duration(k.seq)*time.Second + time.Duration(k.task*37+k.seq)*time.Millisecond)
+	return evEpoch.Add(time.Duration(k.task%2)*time.Hour + time.Duration(k.seq/2)*time.Second + time.Duration((k.task*37+k.seq*11)%1000)*time.Millisecond)
 }
 
 func ctxString(k evKey) string { return fmt.Sprintf("trace-%d-%d", k.task, k.seq) }
